@@ -33,8 +33,69 @@ KIND_TASKS = {
 SIG_SOURCE = {"CommandTask": "command->getSignature()", "MissingCommandTask": "{}", "Node": "node->getSignature()"}
 
 
+def r_output_compare(prog, rep, with_inputs=True):
+    """shared with C09 (a command whose output no longer matches is re-executed)"""
+    r = rep.rule("R-OUTPUT-COMPARE", "command validity visits every declared output, skips only virtual ones and compares stored with current file information "
+                                     "(existence only for mutated nodes); input-file validity re-stats and compares", floor=5)
+    v = prog.fn("ExternalCommand::isResultValid")
+    bv = BranchFacts(v, kill="assign")
+    loops = [n for n in v.nodes if n.get("k") == "for"]
+    ok = len(loops) == 1
+    if ok:
+        lp = loops[0]
+        bound = [x for d in [lp.child("init")] if d is not None for x in d.walk() if x.get("k") == "decl"]
+        ivars = {v_["n"]: expr_plain(v.nodes[v_["init"]]) for d_ in lp.child("init").walk() if d_.get("k") == "decl" for v_ in d_["vars"] if "init" in v_} \
+            if lp.child("init") is not None else {}
+        ok = ivars.get("i") == "0" and ivars.get("e") == "outputs.size()" and expr_plain(lp.child("c")) in ("(i != e)", "(i < e)") and \
+            expr_plain(lp.child("inc")) in ("(++i)", "(i++)") and any(expr_plain(x) == "outputs[i]" for x in lp.child("body").walk())
+    r.check(ok, "ExternalCommand::isResultValid|all-outputs", "", "the validity loop does not run over all outputs", v)
+    conts = [n for n in v.nodes if n.get("k") == "continue"]
+    okc = True
+    for c_ in conts:
+        st = bv.at_node(c_) or frozenset()
+        okc = okc and (any(p and a == "node.isVirtual()" for a, p in st) or any(p and a == "node.isMutated()" for a, p in st))
+    r.check(okc, "ExternalCommand::isResultValid|skips-only-virtual-or-mutated", "%d continue(s)" % len(conts), "an output is skipped for another reason", v)
+    cmp_ = [c for c in v.nodes if c.get("k") == "call" and c.get("op") == "!=" and "getNthOutputInfo(i)" in expr_plain(c) and "info" in expr_plain(c)]
+    okv = len(cmp_) == 1
+    if okv:
+        st = bv.at_node(cmp_[0]) or frozenset()
+        okv = any((not p) and a == "node.isMutated()" for a, p in st) and any((not p) and a == "node.isVirtual()" for a, p in st) and \
+            not any(a not in ("node.isMutated()", "node.isVirtual()", "alwaysOutOfDate", "value.isSuccessfulCommand()", "(i != e)", "(e != i)", "(i < e)", "(e > i)") for a, p in st)
+    r.check(okv, "ExternalCommand::isResultValid|compares-file-info", "",
+            "stored and current file information are not compared with != for every output that is neither virtual nor mutated", v)
+    info = [x for d in v.nodes if d.get("k") == "decl" for x in d["vars"] if x["n"] == "info" and "init" in x]
+    r.check(len(info) == 1 and "node.getFileInfo" in expr_str(v.nodes[info[0]["init"]]), "ExternalCommand::isResultValid|restats-output", "", "current file information is not read from the output node", v)
+    mut = [c for c in v.nodes if c.get("k") == "bin" and c["op"] == "!=" and "isMissing()" in expr_str(c)]
+    r.check(len(mut) == 1 and "getNthOutputInfo(i)" in expr_plain(mut[0]) and "info.isMissing()" in expr_plain(mut[0]), "ExternalCommand::isResultValid|mutated-existence", "",
+            "mutated outputs are not compared by existence", v)
+    esc = [n for n in v.nodes if n.get("k") in ("break", "goto")]
+    r.check(not esc, "ExternalCommand::isResultValid|loop-not-cut-short", "", "the validity loop can stop before the last output (%s at line %s)" %
+            (esc[0]["k"] if esc else "", esc[0].get("ln") if esc else ""), v, esc[0] if esc else None)
+    rets = [n for n in v.nodes if n.get("k") == "return" and core(n.child("e")).get("v") is True]
+    lp_ids = set(x["id"] for l in [n for n in v.nodes if n.get("k") == "for"] for x in l.walk())
+    r.check(len(rets) == 1 and rets[0]["id"] not in lp_ids, "ExternalCommand::isResultValid|valid-only-after-all-outputs", "",
+            "`return true` is reachable before every output was looked at", v)
+    if not with_inputs:
+        return r
+    fi = prog.fn("FileInputNodeTask::isResultValid")
+    rets = [x for x in fi.nodes if x.get("k") == "return"]
+    bfi = BranchFacts(fi, kill="assign")
+    ok = len(rets) == 2 and bool(fi.calls("getFileInfo"))
+    for x in rets:
+        st = bfi.at_node(x) or frozenset()
+        if any(p and a == "info.isMissing()" for a, p in st):
+            ok = ok and expr_plain(core(x.child("e"))) == "value.isMissingInput()"
+        else:
+            t = expr_plain(core(x.child("e")))
+            ok = ok and "value.isExistingInput()" in t and "value.getOutputInfo()" in t and "info" in t and "==" in t
+    r.check(ok, "FileInputNodeTask::isResultValid|restat-and-compare", "", "input-file validity does not compare existence and file information with a fresh stat", fi)
+    return r
+
+
 def run(ctx):
     prog, rep = ctx.prog, ctx.report
+    from rules import inputids
+    inputids.run_rule(prog, rep)
 
     r = rep.rule("R-LOOKUP-EXHAUSTIVE", "lookupRule handles every key kind; each rule pairs its task class with that class's own validity predicate and the "
                                         "signature of the command/node it stands for", floor=20)
@@ -125,49 +186,26 @@ def run(ctx):
     nmiss = sum(v_ for k, v_ in seen.items() if k.endswith("/MissingCommandTask"))
     r.check(nmiss == 2, "lookupRule|missing-command-rules", "%d" % nmiss, "expected a missing-command rule for unknown commands and unknown custom tasks", f)
 
-    r = rep.rule("R-OUTPUT-COMPARE", "command validity visits every declared output, skips only virtual ones and compares stored with current file information "
-                                     "(existence only for mutated nodes); input-file validity re-stats and compares", floor=5)
-    v = prog.fn("ExternalCommand::isResultValid")
-    bv = BranchFacts(v, kill="assign")
-    loops = [n for n in v.nodes if n.get("k") == "for"]
-    ok = len(loops) == 1
-    if ok:
-        lp = loops[0]
-        bound = [x for d in [lp.child("init")] if d is not None for x in d.walk() if x.get("k") == "decl"]
-        ivars = {v_["n"]: expr_plain(v.nodes[v_["init"]]) for d_ in lp.child("init").walk() if d_.get("k") == "decl" for v_ in d_["vars"] if "init" in v_} \
-            if lp.child("init") is not None else {}
-        ok = ivars.get("i") == "0" and ivars.get("e") == "outputs.size()" and expr_plain(lp.child("c")) in ("(i != e)", "(i < e)") and \
-            expr_plain(lp.child("inc")) in ("(++i)", "(i++)") and any(expr_plain(x) == "outputs[i]" for x in lp.child("body").walk())
-    r.check(ok, "ExternalCommand::isResultValid|all-outputs", "", "the validity loop does not run over all outputs", v)
-    conts = [n for n in v.nodes if n.get("k") == "continue"]
-    okc = True
-    for c_ in conts:
-        st = bv.at_node(c_) or frozenset()
-        okc = okc and (any(p and a == "node.isVirtual()" for a, p in st) or any(p and a == "node.isMutated()" for a, p in st))
-    r.check(okc and len(conts) == 2, "ExternalCommand::isResultValid|skips-only-virtual-or-mutated", "", "an output is skipped for another reason", v)
-    cmp_ = [c for c in v.nodes if c.get("k") == "call" and c.get("op") == "!=" and "getNthOutputInfo(i)" in expr_plain(c) and "info" in expr_plain(c)]
-    r.check(len(cmp_) == 1 and any((not p) and a == "node.isMutated()" for a, p in (bv.at_node(cmp_[0]) or frozenset())), "ExternalCommand::isResultValid|compares-file-info", "",
-            "stored and current file information are not compared with !=", v)
-    info = [x for d in v.nodes if d.get("k") == "decl" for x in d["vars"] if x["n"] == "info" and "init" in x]
-    r.check(len(info) == 1 and "node.getFileInfo" in expr_str(v.nodes[info[0]["init"]]), "ExternalCommand::isResultValid|restats-output", "", "current file information is not read from the output node", v)
-    mut = [c for c in v.nodes if c.get("k") == "bin" and c["op"] == "!=" and "isMissing()" in expr_str(c)]
-    r.check(len(mut) == 1 and "getNthOutputInfo(i)" in expr_plain(mut[0]) and "info.isMissing()" in expr_plain(mut[0]), "ExternalCommand::isResultValid|mutated-existence", "",
-            "mutated outputs are not compared by existence", v)
-    fi = prog.fn("FileInputNodeTask::isResultValid")
-    rets = [x for x in fi.nodes if x.get("k") == "return"]
-    bfi = BranchFacts(fi, kill="assign")
-    ok = len(rets) == 2 and bool(fi.calls("getFileInfo"))
-    for x in rets:
-        st = bfi.at_node(x) or frozenset()
-        if any(p and a == "info.isMissing()" for a, p in st):
-            ok = ok and expr_plain(core(x.child("e"))) == "value.isMissingInput()"
-        else:
-            t = expr_plain(core(x.child("e")))
-            ok = ok and "value.isExistingInput()" in t and "value.getOutputInfo()" in t and "info" in t and "==" in t
-    r.check(ok, "FileInputNodeTask::isResultValid|restat-and-compare", "", "input-file validity does not compare existence and file information with a fresh stat", fi)
+    r_output_compare(prog, rep)
+
 
 
 VARIANTS = [
+    dict(name="tree-signature-ids-overlap-child-ids", file="lib/BuildSystem/BuildSystem.cpp",
+         edits=[("                     /*inputID=*/1 + childResults.size() + index);", "                     /*inputID=*/childResults.size() + index);"),
+                ("    auto index = inputID - 1 - childResults.size();\n    assert(index < childResults.size());\n    childResults[index].directorySignatureValue = valueData;", "    auto index = inputID - childResults.size();\n    assert(index < childResults.size());\n    childResults[index].directorySignatureValue = valueData;")],
+         expect=("R-INPUT-IDS", "DirectoryTreeSignatureTask")),
+    dict(name="tree-signature-decoded-off-by-one", file="lib/BuildSystem/BuildSystem.cpp",
+         old="    auto index = inputID - 1 - childResults.size();\n    assert(index < childResults.size());\n    childResults[index].directorySignatureValue = valueData;",
+         new="    auto index = inputID - childResults.size();\n    assert(index < childResults.size());\n    childResults[index].directorySignatureValue = valueData;", expect=("R-INPUT-IDS", "DirectoryTreeSignatureTask")),
+    dict(name="child-node-ids-start-at-zero", file="lib/BuildSystem/BuildSystem.cpp", old="        ti.request(BuildKey::makeNode(childPath).toData(), /*inputID=*/1 + i);\n      }\n      return;\n    }\n\n    // If the input is a child, add it to the collection and dispatch a\n    // directory request if needed.",
+         new="        ti.request(BuildKey::makeNode(childPath).toData(), /*inputID=*/i);\n      }\n      return;\n    }\n\n    // If the input is a child, add it to the collection and dispatch a\n    // directory request if needed.",
+         expect=("R-INPUT-IDS", "makeNode")),
+    dict(name="validity-loop-stops-at-first-virtual-output", file="lib/BuildSystem/ExternalCommand.cpp", old="    // Ignore virtual outputs.\n    if (node->isVirtual())\n      continue;", new="    // Ignore virtual outputs.\n    if (node->isVirtual())\n      break;",
+         expect=("R-OUTPUT-COMPARE", "")),
+    dict(name="benign-validity-loop-if-else", file="lib/BuildSystem/ExternalCommand.cpp",
+         old="    if (node->isMutated()) {\n      if (value.getNthOutputInfo(i).isMissing() != info.isMissing())\n        return false;\n      continue;\n    }\n\n    if (value.getNthOutputInfo(i) != info)\n      return false;",
+         new="    if (node->isMutated()) {\n      if (value.getNthOutputInfo(i).isMissing() != info.isMissing())\n        return false;\n    } else {\n      if (value.getNthOutputInfo(i) != info)\n        return false;\n    }", expect=None),
     dict(name="produced-node-uses-file-input-validity", file="lib/BuildSystem/BuildSystem.cpp",
          old="        return ProducedNodeTask::isResultValid(\n            engine, *node, BuildValue::fromData(value));", new="        return VirtualInputNodeTask::isResultValid(\n            engine, *node, BuildValue::fromData(value));",
          expect=("R-LOOKUP-EXHAUSTIVE", "Node/ProducedNodeTask")),
